@@ -19,7 +19,7 @@ TraceSpec == TraceInit /\ [][TraceNext]_tvars
 
 (* the block_quote node that docutils' quote directives (epigraph, ...) return gets its line from docutils' *)
 (* own BlockQuote code, not from MyST: its own mark is not compared, everything inside it is              *)
-Bad == {n \in 1..Len(marks) : marks[n].what # "quote-directive" /\ (n > Len(T.obs) \/ T.obs[n][1] # marks[n].m \/ T.obs[n][2] # marks[n].src)}
+Bad == {n \in 1..Len(marks) : (n > Len(T.obs) \/ T.obs[n][1] # marks[n].m \/ T.obs[n][2] # marks[n].src)}
 Verdict == Done => PrintT(ToJson([id |-> T.id, bad |-> Bad, n |-> Len(marks),
                                   exp |-> [n \in 1..Len(marks) |-> <<marks[n].what, marks[n].m, marks[n].src>>]]))
 =============================================================================
